@@ -1,4 +1,6 @@
-// gensqlmethods regenerates coq/theories/Gen/DbMethods.v from sqlgen/*.go (no tests): the exported methods
+// gensqlmethods writes the committed snapshot coq/theories/Gen/DbMethods.v from sqlgen/*.go (no tests); it is NOT
+// run by ./check (every run extracts the table of its own tree into its own directory: harness/pkg/sqlh/methods.go,
+// same algorithm).  The exported methods
 // of sqlgen.DB as a Coq list, one entry per method:
 //
 //	(method, (reaches a query call, reaches an exec call, begins a transaction))
@@ -141,7 +143,7 @@ func main() {
 	}
 	sort.Strings(dbMethods)
 	var b strings.Builder
-	b.WriteString("(* GENERATED on every run of ./check C12 by /verif/tools/gensqlmethods (go/ast) from sqlgen/*.go:\n")
+	b.WriteString("(* SNAPSHOT written by /verif/tools/gensqlmethods (go/ast) from sqlgen/*.go (every run of ./check C12 extracts\n   the table of its own tree into its own directory and checks that one):\n")
 	b.WriteString("   the exported methods of sqlgen.DB.  Do not edit.\n")
 	b.WriteString("   Entry: (method, (reaches a query call, reaches an exec call, begins a transaction)), transitively\n")
 	b.WriteString("   through the functions of package sqlgen (by name). *)\n")
@@ -169,7 +171,12 @@ func main() {
 		return
 	}
 	os.MkdirAll(filepath.Dir(*out), 0o755)
-	if err := ioutil.WriteFile(*out, []byte(b.String()), 0o644); err != nil {
+	tmp := *out + fmt.Sprintf(".tmp%d", os.Getpid()) // atomically: no reader ever sees half a table
+	if err := ioutil.WriteFile(tmp, []byte(b.String()), 0o644); err != nil {
+		fmt.Fprintln(os.Stderr, err)
+		os.Exit(1)
+	}
+	if err := os.Rename(tmp, *out); err != nil {
 		fmt.Fprintln(os.Stderr, err)
 		os.Exit(1)
 	}
